@@ -30,7 +30,7 @@ SEG = lambda n: rc.comp(0x32, rc.enc_nni(n))   # noqa
 
 def model(sc):
     """-> (yielded contents, outcome, attempts {key: n})   key: 'disc' or segment number"""
-    R = sc['retry']
+    R = max(1, sc['retry'])        # (retry_times=0, 'do not retry', is one attempt)
     att = {}
     out = []
 
@@ -142,7 +142,10 @@ def execute(sc):
                 return
             if key == 'disc':
                 if sc['n'] == 0:
-                    d = bytes(make_data(prefix + ver, MetaInfo(freshness_period=10), b'U', DigestSha256Signer()))
+                    # an unsegmented object: ONE Data under the prefix; its last component is the publisher's business (a sequence
+                    # number, a flag octet plus a counter, ...) - a generic component is no segment number whatever its octets are
+                    tail_ = [rc.comp(8, bytes.fromhex(sc['unseg_tail']))] if sc.get('unseg_tail') else []
+                    d = bytes(make_data(prefix + ver + tail_, MetaInfo(freshness_period=10), b'U', DigestSha256Signer()))
                 else:
                     d = seg_data(sc['disc_answer'])
             elif isinstance(key, int) and 0 <= key <= last:
@@ -166,7 +169,7 @@ def execute(sc):
             R.setdefault('validated_names', []).append(nm)
             if fault and fault[1] == 'valfail':
                 if fault[0] == 'disc':
-                    disc_name = prefix + ver + ([SEG(sc['disc_answer'])] if sc['n'] else [])
+                    disc_name = prefix + ver + ([SEG(sc['disc_answer'])] if sc['n'] else ([rc.comp(8, bytes.fromhex(sc['unseg_tail']))] if sc.get('unseg_tail') else []))
                     return not (first and nm == disc_name)
                 if not first and nm == prefix + ver + [SEG(fault[0])]:
                     return False
@@ -261,12 +264,14 @@ def execute(sc):
 
 def gen_script(rng):
     n = rng.choice([0, 1, 1, 2, 3, 4, 5, 8])
-    retry = rng.choice([1, 2, 3])
+    retry = rng.choice([1, 2, 3, 0])          # (0: "do not retry" - one attempt, like 1)
     sc = {'n': n, 'retry': retry, 'version': rng.random() < 0.5, 'marker': rng.choice(['every', 'last', 'estimate', 'other-type', 'early-only']), 'fresh': rng.choice([10, 10, 0, None]),
           'disc_answer': rng.randrange(n) if n else 0, 'loss': {}, 'fault': None,
           'name_form': rng.choice(['list', 'list', 'tuple', 'uri', 'encoded', 'generator', 'iterator', 'list-str']),
           'validator_via': rng.choice(['argument', 'argument', 'app-default']), 'ctype': rng.choice(['encoded', 'encoded', 'omitted']),
           'validator_form': rng.choice(['function', 'function', 'lambda', 'partial', 'object'])}
+    if n == 0 and rng.random() < 0.7:
+        sc['unseg_tail'] = rng.choice(['0005', '000001', '0000000007', '000000000000000009', '00', 'fd00', '3200', '7365673d31'])
     keys = ['disc'] + list(range(n))
     for k in keys:
         if rng.random() < 0.35:
